@@ -161,6 +161,16 @@ CHECKS["C16"] = dict(
          "outside); free-name analysis of whole outputs is outside.",
     design="§4 C16")
 
+CHECKS["C15"] = dict(
+    engine="E1 kani + E2 mirsym (MIR -> z3)", technique="Kani/CBMC harnesses over symbolic ASCII identifiers for the spelling tables; symbolic execution of rustc MIR for the generator's name special cases; z3; native replay by renaming",
+    text="Bounded model checking of the name tables: Kani decides concrete_to_python (identifiers <= 10 bytes) and "
+         "as_op_or_id (<= 6 bytes, longer keywords concretely) against the documented lists; mirsym executes the FunDef "
+         "arm of convert_def and the Id arm of convert_node with the identifier free and z3 decides that a function "
+         "keeps its name unless it is the documented constructor name, and that identifiers are only changed by the table.",
+    note="Name tables and generator special cases only; commutation of the whole pipeline with renaming (unbounded "
+         "names, x@1 shadow encoding) is outside. Known finding: `size` -> `__size__`.",
+    design="§4 C15")
+
 NOT_APPLICABLE = {
     "C02": "needs the generator executed on symbolic programs (core::fmt/to_py recursion does not finish in CBMC even on concrete 3-node trees) and membership in Python's grammar as the assertion; no encodable kernel (DESIGN §6)",
     "C04": "oracle is Python's dynamic semantics over whole programs and the subject is the whole checker (HashSet/recursion out of reach of Kani; not loop-free for the MIR executor) (DESIGN §6)",
